@@ -110,6 +110,14 @@ CHECKS = {
              "(rgb_to_oklch_safe((300,300,300)) -> L = 1.18), now fixed in /repo. Losslessness of the 2^24 round trip is numeric and not decided.",
         ref="DESIGN 3/C10, 4/F-C10",
         note=TB + "; references in checks/C10.py transcribe Ottosson's OKLab (matrices of 2021-01-25) to 1e-6 relative"),
+    "C07": dict(
+        technique="static constant-table comparison (148 keywords, two reference sources), normalisation-dominance rule via reaching-definition origins, formula-shape audits of the token scalers / hex reader / CSS HSL->RGB algorithm, hue-wrap census",
+        category="other",
+        text="Decides the structural clauses: the keyword table is CSS Color 3 + rebeccapurple entry by entry; every dispatch test sees color.strip().lower(); percentages, alpha, plain components, rounding and clamping are the CSS scalings; "
+             "hex digits are doubled and read base 16 in R,G,B order; every hue entry is wrapped % 360; HSL->RGB is the CSS algorithm. A single wrong keyword value or a /256 is invisible to thirty sampled strings but is one mismatch here. "
+             "Nearest-8-bit rounding of arbitrary decimals and inner-whitespace lexing are not decided.",
+        ref="DESIGN 3/C07",
+        note=TB + "; embedded keyword table /verif/ref/css_named_colors.json (generated from tinycss2.color3, spot-checked against the CSS spec); thorough tier re-reads tinycss2's table"),
 }
 
 NOT_APPLICABLE = {
